@@ -74,6 +74,30 @@ def parse (t : IntTy) (ws : Bool) (s : List Nat) (b : Nat) : PRes :=
     let n := s.length - s2.length + ds.length
     if t.inRange v then .ok v n else .range n
 
+/-- `0x` / `0X` followed by a hexadecimal digit (C17 7.22.1.4: the prefix belongs to the subject sequence
+    only when a digit follows; otherwise the subject sequence is the `0`) -/
+def hexPrefix (s : List Nat) : Bool :=
+  match s with
+  | 48 :: x :: d :: _ => (x == 120 || x == 88) && isDigitOf 16 d
+  | _ => false
+
+/-- `to_integer` with base 0: the pattern of `parse` with the base taken from the text as C17 7.22.1.4
+    does for `strtol(.., 0)` — after the optional `-`: `0x`/`0X` + hex digit = hexadecimal (prefix
+    consumed), another leading `0` = octal, anything else decimal. -/
+def parseAuto (t : IntTy) (ws : Bool) (s : List Nat) : PRes :=
+  let s1 := if ws then s.dropWhile isSpace else s
+  let neg := t.signed && (s1.head? == some 45)
+  let s2 := if neg then s1.drop 1 else s1
+  let hex := hexPrefix s2
+  let b := if hex then 16 else if s2.head? == some 48 then 8 else 10
+  let s3 := if hex then s2.drop 2 else s2
+  let ds := s3.takeWhile (isDigitOf b)
+  if ds.isEmpty then .invalid
+  else
+    let v : Int := if neg then -(valueOf b ds : Int) else (valueOf b ds : Int)
+    let n := s.length - s3.length + ds.length
+    if t.inRange v then .ok v n else .range n
+
 /-! ### strtol family (C17 7.22.1.4, glibc) -/
 
 structure StrtoRes where
@@ -81,11 +105,6 @@ structure StrtoRes where
   endPos : Nat
   erange : Bool
   deriving Repr, DecidableEq
-
-def hexPrefix (s : List Nat) : Bool :=
-  match s with
-  | 48 :: x :: d :: _ => (x == 120 || x == 88) && isDigitOf 16 d
-  | _ => false
 
 /-- `strtol`/`strtoul` on a C string: white space, optional sign `+`/`-`, optional `0x` (base 16 or 0),
     base 0 = auto-detect, digits; saturation with `ERANGE`; `strtoul` negates modulo `2^bits`. -/
